@@ -52,6 +52,29 @@ CYCLE_BRANCHES = ('development/9.5', 'development/11.0', 'development/4.4',
 def prelude(data, hist):
     if data.draw(st.integers(0, 5), label='with_queue') > 0:
         c03.prelude(data, hist, evaluate=False)
+    hot = [n for n in hist.world.hot if n in hist.world.heads()]
+    if len(hot) >= 1 and hist.world.mode != 'noqueue' and data.draw(
+            st.integers(0, 1), label='hotq'):
+        # a pull request queued on each hotfix branch, then the delete-branch
+        # job on one of them (each hotfix queue is its own queue)
+        from vf.sim.world import AUTHOR, PEER1, PEER2
+        for i, hb in enumerate(hot):
+            hist.apply({'op': 'open_pr', 'src': 'bugfix/TEST-9%d-hf' % i,
+                        'dst': hb, 'author': AUTHOR, 'base_back': 0})
+            pr = max(hist.world.prs)
+            for u in (PEER1, PEER2, AUTHOR):
+                hist.apply({'op': 'approve', 'pr': pr, 'user': u})
+            for _ in range(2):
+                hist.apply({'op': 'pr_event', 'pr': pr})
+                hist.apply({'op': 'report_pr', 'pr': pr,
+                            'state': 'SUCCESSFUL'})
+        for hb in reversed(hot):
+            hist.apply({'op': 'admin', 'kind': 'delete_branch',
+                        'args': {'branch': hb}})
+            hist.apply({'op': 'drain'})
+            if hist.violations:
+                return
+        hist.flags.add('c20_hotfix_queues')
     if data.draw(st.integers(0, 3), label='cycle') == 0:
         # create - delete (archives) - create again: the archived case of
         # the statement is only reachable through this cycle
